@@ -154,6 +154,18 @@ func (rc *runCtx) request(broker int32, kind string) {
 	rc.event("req")
 }
 
+// requestQuiet logs a request without counting it as an observable event.
+func (rc *runCtx) requestQuiet(broker int32, kind string) {
+	if atomic.LoadInt32(&rc.armed) == 0 {
+		return
+	}
+	rc.mu.Lock()
+	if len(rc.reqLog) < 200 {
+		rc.reqLog = append(rc.reqLog, fmt.Sprintf("b%d:%s", broker, strings.ToLower(strings.TrimSuffix(kind, "Request"))))
+	}
+	rc.mu.Unlock()
+}
+
 func (rc *runCtx) fail(sig, what string) {
 	rc.mu.Lock()
 	rc.fails = append(rc.fails, Failure{sig, what})
